@@ -38,6 +38,9 @@ Proof. vm_compute. reflexivity. Qed.
 Lemma extractors_tie : extr_table = model_extr_table.
 Proof. vm_compute. reflexivity. Qed.
 
+Lemma convertconst_tie : convertconst_cases = model_convertconst_cases.
+Proof. vm_compute. reflexivity. Qed.
+
 Lemma convert_tie :
   convert_closure = model_convert_closure /\ convert_do = true /\ convert_typ = model_convert_typ.
 Proof. repeat split; vm_compute; reflexivity. Qed.
